@@ -27,6 +27,7 @@
 (*       "const" constant definition t = n (emits nothing)                  *)
 (*       "brk"   branch m rs1=a rs2=b / "jalk" jal rd=a to the ABSOLUTE     *)
 (*               address given by constant t (= n): `beq x8, x0, K`         *)
+(*       "pjk"   call / tail (m) to the absolute address in constant t (= n) *)
 (*       "pins"  literal pseudo-instruction m (nop mv not neg seqz snez sltz *)
 (*               sgtz jr jalr ret) with registers a, b                     *)
 (*   f = "bare" (label value) | "pos" (%position(t, n)) | "off" (%offset)  *)
@@ -133,7 +134,7 @@ RleLen(r) == IF r = <<>> THEN 0 ELSE r[1][2] + RleLen(Tail(r))
 RECURSIVE RleBytes(_)
 RleBytes(r) == IF r = <<>> THEN <<>> ELSE [j \in 1..r[1][2] |-> r[1][1]] \o RleBytes(Tail(r))
 
-InstrKinds == {"ins", "pins", "br", "jal", "pbr", "pj", "li", "lil", "imml", "brk", "jalk"}
+InstrKinds == {"ins", "pins", "br", "jal", "pbr", "pj", "li", "lil", "imml", "brk", "jalk", "pjk"}
 
 ItemFails(prog, obs, off, i) ==
   LET it == prog[i]
@@ -142,13 +143,24 @@ ItemFails(prog, obs, off, i) ==
       ds == Insts(obs.hw[i])
       legal == \A j \in 1..Len(ds) : ds[j].m # "illegal"
       one == Len(ds) = 1
-      tgt == IF it.k \in {"brk", "jalk", "const"} \/ it.t = "" THEN 0 ELSE LabelOff(prog, off, it.t)
+      tgt == IF it.k \in {"brk", "jalk", "pjk", "const"} \/ it.t = "" THEN 0 ELSE LabelOff(prog, off, it.t)
   IN
   CASE it.k \in {"lab", "const"} -> IF sz = 0 THEN {} ELSE {"LabelEmitsNothing"}
     [] it.k = "brk" ->
          (IF legal THEN {} ELSE {"EveryInstructionLegal"}) \cup
          (IF one /\ legal /\ ds[1].m = it.m /\ ds[1].ops[1] = it.a /\ ds[1].ops[2] = it.b THEN {} ELSE {"MeaningPreserved"}) \cup
          (IF one /\ legal /\ ds[1].m \in BType /\ pos + ds[1].ops[3] = it.n THEN {} ELSE {"AbsoluteTargetExact"})
+    [] it.k = "pjk" ->
+         LET link == IF it.m = "call" THEN 1 ELSE 0
+             scratch == IF it.m = "call" THEN 1 ELSE 6
+         IN
+         (IF legal THEN {} ELSE {"EveryInstructionLegal"}) \cup
+         (IF one /\ legal /\ ds[1].m = "jal"
+          THEN (IF ds[1].ops[1] = link THEN {} ELSE {"PseudoExpansion"}) \cup (IF pos + ds[1].ops[2] = it.n THEN {} ELSE {"AbsoluteTargetExact"})
+          ELSE IF Len(ds) = 2 /\ legal /\ ds[1].m = "auipc" /\ ds[2].m = "jalr"
+          THEN (IF ds[1].ops[1] = scratch /\ ds[2].ops[1] = link /\ ds[2].ops[2] = scratch THEN {} ELSE {"PseudoExpansion"}) \cup
+               (IF ds[1].ops[2] \in -262144..262143 /\ pos + ds[1].ops[2] * 4096 + ds[2].ops[3] = it.n THEN {} ELSE {"AbsoluteTargetExact"})
+          ELSE {"PseudoExpansion", "AbsoluteTargetExact"})
     [] it.k = "jalk" ->
          (IF legal THEN {} ELSE {"EveryInstructionLegal"}) \cup
          (IF one /\ legal /\ ds[1].m = "jal" /\ ds[1].ops[1] = it.a THEN {} ELSE {"MeaningPreserved"}) \cup
